@@ -41,7 +41,8 @@ stub_seek (SF_PRIVATE *psf, int mode, sf_count_t pos)
 	g_rpos = pos ;
 	return pos ;
 }
-static int stub_write_header (SF_PRIVATE *psf, int calc) { (void) psf ; (void) calc ; g_hdr_calls ++ ; return 0 ; }
+static int g_hdr_calc = -1 ;
+static int stub_write_header (SF_PRIVATE *psf, int calc) { (void) psf ; g_hdr_calc = calc ; g_hdr_calls ++ ; return 0 ; }
 static int stub_command (SF_PRIVATE *psf, int cmd, void *data, int datasize)
 {	(void) psf ; (void) cmd ;
 	g_cmd_calls ++ ;
@@ -204,6 +205,8 @@ main (void)
 #endif
 	if (nd_nullh)
 		VASSERT (hsnap_same (psf, &before) && psf->error == err_before, "NULL handle: no handle is touched") ;
+	else if (CMD == SFC_UPDATE_HEADER_NOW)
+		VASSERT (g_hdr_calls == 1 && g_hdr_calc == SF_TRUE, "SFC_UPDATE_HEADER_NOW rewrites the header once, with the lengths recalculated from what has been written (whatever the auto-update setting)") ;
 	(void) ret ;
 	WITNESS_END () ;
 	return 0 ;
